@@ -146,6 +146,14 @@ L['C06'] = dict(modules=['Schc.Properties.C06'], level='proof', technique='Lean 
               T('C06_chunks', 'full', 'chunks(n, padding) for every n >= 1'), T('C06_chunks_pieces', 'full', 'closed form of the pieces'),
               T('C06_chunks_zero', 'full', 'chunks(0) raises')],
     level_text='Proved for bit strings of every length, both sides, every shift amount (any integer) and every chunk size. Tie as for C05. Python ints are unbounded Nat in the model (exact).')
+
+L['C19'] = dict(modules=['Schc.Properties.C19'], level='proof', technique='Lean 4 lockstep simulation of the two option walks of _parse_options and inversion of CoAPParser.unparse (tables read from coap.py)',
+    theorems=[T('C19_lossless', 'full', 'semantic parse then unparse = syntactic (id, value) sequence, for every LEFT-padded message with no reserved nibble 15; both parses succeed together on the same bytes'),
+              T('C19_parse_decided', 'full', 'the syntactic parse terminates (ok or ParserError) with the fuel used'),
+              T('C19_option', 'full', 'one option, all delta/length ranges and boundaries, empty and non-empty values'),
+              T('C19_field_id', 'full', 'every option number (known or OPTION_UNKNOWN(n)) survives its field id; ids never collide with fixed fields'),
+              T('C19_boundaries', 'test', 'boundary arithmetic 12/13, 268/269 (concrete values)')],
+    level_text='Proved for messages of any length with any number of options, any option numbers (known and unknown to the library), any deltas and value lengths, with and without payload, under the hypothesis that no delta/length nibble is the reserved value 15 (RFC 7252 cannot encode such options; an example shows the hypothesis is needed). Values compared as (field id, Buffer) pairs, exactly. Trusted/abstracted: Python re.match and int() on the rendered OPTION_UNKNOWN(n) id are modelled by unknownOptionNumber (checked by the parse stream on unknown options); str(Enum) rendering is read from the running interpreter by the translator. PacketParser.unparse dispatch (parser.py) is covered by correspondence, not by this theorem.')
 for k in L:
     L[k]['level_note'] = NOTE
     L[k]['design_ref'] = 'DESIGN.md §6 ' + k
